@@ -17,7 +17,7 @@ class C22(Check):
     rule = ('atom pool produced by the real preprocessing + CNF pipeline (<= 24 atoms); the simulator plays the SAT engine and issues <= 200 seeded assert / check(incomplete|complete) / '
             'backtrack operations on the real THandler (LA, UF, array, IDL, RDL, UFLA handlers), adopting theory deductions and asking for their reasons after a temporary '
             'backtrack as conflict analysis does; after every step: an UNSAT verdict needs R-truth(trail)=unsat and a conflict made of negations of trail literals that is '
-            'theory-unsatisfiable by itself; a reason cites only literals asserted before the propagated one and implies it; a complete-check SAT with no pending split in LRA/EUF/RDL/IDL needs R-truth(trail)=sat; non-trivial = a backtrack followed by an assertion '
+            'theory-unsatisfiable by itself; a reason cites only literals asserted before the propagated one and implies it; in a third of the LRA/EUF/RDL/IDL runs one literal set is asserted in 20-40 different orders and the verdicts must agree (order independence, references consulted only on disagreement); a complete-check SAT with no pending split in LRA/EUF/RDL/IDL needs R-truth(trail)=sat; non-trivial = a backtrack followed by an assertion '
             'and a check, with both verdicts present; distinct = hash of (formulas, operation list)')
 
     def gen_case(self, seed, idx, tier):
@@ -50,6 +50,25 @@ class C22(Check):
                 ops.append(['check', ro.random() < p_complete, mask])
             else:
                 ops.append(['backtrack', ro.choice([1, 1, 1, 2, 3, 5])])
+        mode = 'ops'
+        if h['logic'] in PURE_SAT_SIDE and ro.random() < 0.3:
+            # "perm" mode: one set of literals asserted in many different orders within one run (backtrack to the empty trail
+            # in between). The verdict for a set must not depend on the order - no reference solver is needed to see a
+            # disagreement, so a run covers 20-40 assertion orders for the price of one.
+            mode = 'perm'
+            ops = []
+            dl = h['logic'] in ('QF_RDL', 'QF_IDL')
+            k = ro.randint(5, 10) if dl else ro.randint(4, 9)
+            pn = 0.1 if dl else ro.choice([0.1, 0.3])
+            lits = [(ro.randint(0, 1000), ro.random() < pn) for _ in range(k)]
+            # (the difference-logic solver is by far the cheapest per operation: more orders there)
+            for _ in range(ro.randint(60, 120) if dl else ro.randint(20, 40)):
+                order = lits[:]
+                ro.shuffle(order)
+                ops.append(['backtrack', 100000])
+                for (a, neg) in order:
+                    ops.append(['assert', a, neg])
+                ops.append(['check', True, 0])
         opts = []
         if ro.random() < 0.2:
             opts.append([':do-substitutions', 'false'])
@@ -58,7 +77,8 @@ class C22(Check):
             unusual['BLAND'] = [1 if ro.random() < 0.3 else -1 for _ in range(ro.randint(1, 40))]
         if ro.random() < 0.4:
             unusual['CUT'] = [ro.choice([0, 1, 1, -1]) for _ in range(ro.randint(1, 40))]
-        return {'pid': self.pid, 'idx': idx, 'profile': prof, 'logic': h['logic'], 'decls': [d['text'] for d in h['decls']], 'asserts': asserts, 'ops': ops, 'options': opts, 'unusual': unusual}
+        return {'pid': self.pid, 'idx': idx, 'profile': prof, 'logic': h['logic'], 'decls': [d['text'] for d in h['decls']], 'asserts': asserts, 'ops': ops, 'options': opts, 'unusual': unusual,
+                'mode': mode}
 
     def build_plan(self, case):
         return {'id': case.get('idx', 0), 'engine': 'T', 'logic': case['logic'], 'options': case['options'], 'knobs': {}, 'unusual': case.get('unusual', {}),
@@ -92,6 +112,8 @@ class C22(Check):
 
         def lits(trail):
             return [A[abs(x) - 1] if x > 0 else '(not %s)' % A[abs(x) - 1] for x in trail]
+        if case.get('mode') == 'perm':
+            return self.judge_perm(ctx, case, res, log, prelude, lits)
         seen_bt = False
         after_bt_assert = False
         verdicts = set()
@@ -177,7 +199,75 @@ class C22(Check):
         res['key'] = stable_hash([case['asserts'], case['ops']])
         return res
 
+    def judge_perm(self, ctx, case, res, log, prelude, lits):
+        """Order independence: the runs between two backtracks-to-empty assert the same literals in different orders. A run
+        ends UNSAT (some prefix was refuted) or SAT (complete check on the full set). For one literal set both outcomes
+        cannot be right; the references say which one is wrong."""
+        outcomes = {}     # frozenset(trail lits) for SAT / attempted set for UNSAT -> list of (outcome, step)
+        cur_unsat = None
+        attempted = []
+        bump(res, 'F-assertion-orders', 0)
+        for e in log:
+            if e.get('ev') != 't-step':
+                continue
+            bump(res, 'steps')
+            if e['op'] == 'backtrack' and not e['trail']:
+                attempted, cur_unsat = [], None
+                bump(res, 'F-assertion-orders')
+                continue
+            if e['res'] == 'UNSAT' and cur_unsat is None:
+                cur_unsat = (e['i'], list(e['trail']))
+                bump(res, 'verdict:UNSAT')
+            if e['op'] == 'check-complete':
+                if e['res'] == 'SAT' and cur_unsat is None and e.get('splits', 0) == 0:
+                    bump(res, 'verdict:SAT')
+                    outcomes.setdefault(frozenset(e['trail']), []).append(('SAT', e['i'], list(e['trail'])))
+        # UNSAT outcomes refute a subset of the set the SAT outcomes accept: compare on the references only when both kinds occur
+        unsat_runs = []
+        cur = None
+        for e in log:
+            if e.get('ev') != 't-step':
+                continue
+            if e['op'] == 'backtrack' and not e['trail']:
+                cur = None
+                continue
+            if e['res'] == 'UNSAT' and cur is None:
+                cur = frozenset(e['trail'])
+                unsat_runs.append((cur, e['i'], list(e['trail'])))
+        for sat_set, runs in outcomes.items():
+            for (uset, ui, utrail) in unsat_runs:
+                if uset <= sat_set:
+                    # some order refuted a subset of a set that another order accepted
+                    t = None
+                    try:
+                        t = ctx.refs.truth(prelude, lits(sorted(sat_set, key=abs)))
+                    except RefError:
+                        bump(res, 'oracle-error')
+                    if t == 'unsat':
+                        res['violations'].append({'cls': 'missed-inconsistency', 'sig': {'logic': case['logic'], 'unchecked_backtrack': False, 'order_dependent': True},
+                                                  'detail': {'step': runs[0][1], 'trail': lits(runs[0][2]), 'refuted_in_another_order_at_step': ui, 'refs': ctx.refs.last_raw}})
+                    elif t == 'sat':
+                        res['violations'].append({'cls': 'spurious-inconsistency', 'sig': {'logic': case['logic'], 'op': 'order', 'order_dependent': True},
+                                                  'detail': {'step': ui, 'trail': lits(utrail), 'accepted_in_another_order_at_step': runs[0][1], 'refs': ctx.refs.last_raw}})
+                    else:
+                        bump(res, 'unresolved')
+                    res['nontrivial'] = True
+                    res['key'] = stable_hash([case['asserts'], case['ops']])
+                    return res
+        res['nontrivial'] = bool(outcomes) or bool(unsat_runs)
+        res['key'] = stable_hash([case['asserts'], case['ops']])
+        return res
+
     def shrink_steps(self, case):
+        if case.get('mode') == 'perm':
+            # drop whole assertion orders (from one backtrack-to-empty to the next)
+            starts = [i for i, o in enumerate(case['ops']) if o[0] == 'backtrack' and o[1] >= 100000] + [len(case['ops'])]
+            for a, b in zip(starts, starts[1:]):
+                if len(starts) > 3:
+                    c = copy.deepcopy(case)
+                    del c['ops'][a:b]
+                    yield c
+            return
         for site in list(case.get('unusual', {})):
             c = copy.deepcopy(case)
             del c['unusual'][site]
